@@ -5,9 +5,15 @@ import Kvass.Gen.StoreSrc
 namespace Kvass.Pins
 
 theorem store_pinned : Kvass.Gen.StoreSrc.digests = [
+  ("cmd/kvass/sidecar.go:configInjectSidecar", "cbb0c9c1e0e2b617"),
+  ("cmd/kvass/sidecar.go:init", "079f190155fa6ca7"),
   ("pkg/sidecar/targets.go:TargetsManager.Load", "30f564e602f09737"),
   ("pkg/sidecar/targets.go:TargetsManager.saveTargets", "42c6f0320f649e80"),
-  ("pkg/sidecar/targets.go:TargetsManager.storePath", "cd41d31a4b51f47c")
+  ("pkg/sidecar/targets.go:TargetsManager.storePath", "cd41d31a4b51f47c"),
+  ("pkg/target/target.go:Target.Address", "742609c816c7bd72"),
+  ("pkg/target/target.go:Target.NoParamURL", "6871efa1750aa648"),
+  ("pkg/target/target.go:Target.NoReservedLabel", "fa6c3564137c0bfb"),
+  ("pkg/target/target.go:Target.URL", "f08fedcc2be93f7d")
 ] := rfl
 
 end Kvass.Pins
